@@ -409,3 +409,93 @@ def long_case(draw):
      doc="Hypothesis: histories of 3..30 operations over the extended alphabet, same fresh-object oracle")
 def c07_long(ctx, case):
     body_batch_or_single(ctx, case)
+
+
+# ---- assignments that make the estimate uncomputable (exception path of the getter) ---------
+POOL["r3"] = np.array([1.0, -2.0, 0.5])      # too short for most model orders / tapers
+
+
+def _bad_ops(cls):
+    ops = [["set", "data", "r3"]]
+    if "ar_order" in SPECS[cls]["attrs"]:
+        ops.append(["set", "ar_order", 40])
+    if cls == "pcorrelogram":
+        ops.append(["set", "lag", 40])
+    return ops
+
+
+def _repairs(cls, d0, bad):
+    if bad[1] == "data":
+        return [["set", "data", d0]]
+    if bad[1] == "ar_order":
+        return [["set", "ar_order", SPECS[cls]["init"]["ar_order"]]]
+    return [["set", "lag", 4]]
+
+
+MIDDLES = [[], [["read"]], [["read"], ["read"]], [["call"]], [["read"], ["set", "sides", "centerdc"]],
+           [["read"], ["set", "scale_by_freq", True]], [["call"], ["read"]]]
+
+
+def enum_fail(tier):
+    for cls in CLASSES:
+        for d0 in ("r12", "c12"):
+            for bad in _bad_ops(cls):
+                for mid in MIDDLES:
+                    for tail in ([], _repairs(cls, d0, bad)):
+                        yield {"cls": cls, "d0": d0, "hist": [["call"], bad] + mid + tail + [["read"]]}
+
+
+def _read(p):
+    try:
+        return "ok", np.array(p.psd, copy=True)
+    except Exception as e:   # noqa
+        return "raise", type(e).__name__
+
+
+def _fresh_outcome(p, cls):
+    sp = SPECS[cls]
+    a = {k: getattr(p, k) for k in sp["init"]}
+    try:
+        f = sp["ctor"](p.data, a)
+        _ = f.psd
+        if f.sides != p.sides:
+            f.sides = p.sides
+        return "ok", np.array(f.psd, copy=True)
+    except Exception as e:   # noqa
+        return "raise", type(e).__name__
+
+
+@sub("C07.fail", enum=enum_fail, exhaustive=True, shards_quick=4, shards_thorough=4,
+     doc="assignments after which the estimate cannot be computed (order or lag >= N, a 3-sample record): every later read of psd "
+         "behaves like a fresh object with the same attribute values -- it raises while the fresh object raises (no old estimate is "
+         "served) and returns the fresh estimate once the state is computable again")
+def c07_fail(ctx, case):
+    cls, d0 = case["cls"], case["d0"]
+    sp = SPECS[cls]
+    p = sp["ctor"](POOL[d0].copy(), dict(sp["init"]))
+    ctx.cls(cls, d0[0], "repaired" if case["hist"][-2][0] == "set" and case["hist"][-2] != case["hist"][1] else "left uncomputable")
+    ctx.nontrivial(True)
+    for i, op in enumerate(case["hist"]):
+        if op[0] == "call":
+            try:
+                p()
+            except Exception:   # noqa  (an uncomputable state: the explicit call may raise)
+                pass
+        elif op[0] == "set":
+            val = POOL[op[2]].copy() if op[1] == "data" else op[2]
+            try:
+                setattr(p, op[1], val)
+            except Exception:   # noqa  (a setter may reject, e.g. one-sided for complex data)
+                pass
+        else:
+            got = _read(p)
+            want = _fresh_outcome(p, cls)
+            sig = {"kind": "uncomputable", "cls": cls}
+            if want[0] == "raise":
+                ctx.check(got[0] == "raise", "%s(%s) after %s: reading psd returns an estimate (%d values) although a fresh %s with the same "
+                          "attribute values raises %s: an earlier estimate is served" % (cls, d0, case["hist"][:i + 1], len(got[1]) if got[0] == "ok" else 0, cls, want[1]),
+                          sig=sig)
+            else:
+                ctx.check(got[0] == "ok", "%s(%s) after %s: reading psd raises %s although a fresh %s computes" % (cls, d0, case["hist"][:i + 1], got[1], cls), sig=sig)
+                ctx.check(same(got[1], want[1]), "%s(%s) after %s: psd differs from a fresh %s with the same attribute values"
+                          % (cls, d0, case["hist"][:i + 1], cls), sig=sig)
